@@ -55,6 +55,7 @@ fn px(i: &Inner) -> &u8 {
 
 // @harness name=c17_map_snapshot props=C17,C10 tier=quick flavour=nostd timeout=2400 fn=Map::load+MapGuard::deref+Access::load
 #[cfg_attr(kani, kani::proof)]
+#[cfg_attr(kani, kani::stub(crate::debt::Debt::pay_all, crate::debt::verif_h::pay_all_stub))]
 #[cfg_attr(kani, kani::unwind(12))]
 pub(crate) fn c17_map_snapshot() {
     let v1 = any_cfg();
@@ -99,6 +100,7 @@ pub(crate) fn c17_map_snapshot() {
 // static vs dynamic dispatch, through &, Arc, Box<dyn DynAccess>, AccessConvert; Constant.
 // @harness name=c17_dyn_and_constant props=C17 tier=quick flavour=nostd timeout=2400 fn=DynAccess::load+AccessConvert::load+Constant::load+DirectDeref::deref
 #[cfg_attr(kani, kani::proof)]
+#[cfg_attr(kani, kani::stub(crate::debt::Debt::pay_all, crate::debt::verif_h::pay_all_stub))]
 #[cfg_attr(kani, kani::unwind(12))]
 pub(crate) fn c17_dyn_and_constant() {
     let v1 = any_cfg();
